@@ -70,9 +70,13 @@ func dstLeaves(t types.Type, prefix, local string, leaves, invisible *[]string) 
 			*invisible = append(*invisible, p)
 			continue
 		}
-		if s, ok := f.Type().Underlying().(*types.Struct); ok && s.NumFields() > 0 {
+		// (member-wise copies descend BY-VALUE struct fields only - C04: "same-named by-value struct
+		// fields of different struct types are matched member by member"; a pointer field is a leaf,
+		// and paths through it are outside the path space of these obligations)
+		ft := f.Type()
+		if s, ok := ft.Underlying().(*types.Struct); ok && s.NumFields() > 0 {
 			before := len(*leaves)
-			dstLeaves(f.Type(), p, local, leaves, invisible)
+			dstLeaves(ft, p, local, leaves, invisible)
 			if len(*leaves) > before {
 				continue
 			}
@@ -164,6 +168,9 @@ func refResolve(t types.Type, path, local string) (types.Type, bool) {
 // typeOfDstPath returns the type of a destination path.
 func typeOfDstPath(t types.Type, path string) types.Type {
 	for _, seg := range strings.Split(path, ".") {
+		if pt, ok := t.(*types.Pointer); ok {
+			t = pt.Elem()
+		}
 		st, ok := t.Underlying().(*types.Struct)
 		if !ok {
 			return nil
@@ -369,6 +376,20 @@ func shapesHarness(skeleton string, argNames []string) {
 			vrt.AssertMsg("mapped-from-its-source", line.kind == "nomatch" || (src != "" && line.kind == "assign" && rhsUses(line.rhs, src)), d+" = "+line.rhs+" ("+line.kind+"), source "+src)
 			// a source that resolves (reference resolution on go/types) to a type assignable to the
 			// destination must be used: "no match" is not acceptable then
+			if strings.HasPrefix(win.args[0], "$") && src != "" {
+				var st types.Type
+				switch {
+				case win.args[0] == "$2" && len(argNames) > 0:
+					st = types.Typ[types.String] // extra string
+				case win.args[0] == "$3" && len(argNames) > 1:
+					st = types.Typ[types.Int] // n int
+				case strings.HasPrefix(win.args[0], "$1."):
+					st, _ = refResolve(srcT, win.args[0][3:], local)
+				}
+				if dt := typeOfDstPath(dstT, d); st != nil && dt != nil && types.AssignableTo(st, dt) {
+					vrt.AssertMsg("resolvable-argument-source-is-used", line.kind == "assign", d+" from "+win.args[0]+": "+line.kind)
+				}
+			}
 			if !strings.HasPrefix(win.args[0], "$") {
 				if st, ok := refResolve(srcT, win.args[0], local); ok {
 					if dt := typeOfDstPath(dstT, d); dt != nil && types.AssignableTo(st, dt) {
